@@ -128,6 +128,18 @@ inductive Prep where
   | mid (fp : ExtendedFloat80) (errors : Nat)
 deriving DecidableEq, Repr
 
+/-- multiply the mantissa by the small power: exactly in `u64` when that does not overflow, else normalise
+and use the extended-precision `mul` (booking half a unit); returns the float and the booked errors -/
+def scaleSmall (w si : Nat) (sm : ExtendedFloat80) (errors : Nat) : ExtendedFloat80 × Nat :=
+  if w * si ≥ 2 ^ 64 then (mul (normalize ⟨w, 0⟩).1 sm, wrap32 (errors + litErrorHalfscale))
+  else ((normalize ⟨w * si, 0⟩).1, errors)
+
+/-- multiply by the large power, book its errors, normalise (scaling the errors), bias the exponent -/
+def scaleLarge (F : FTy) (fp1 : ExtendedFloat80) (e1 : Nat) (lg : ExtendedFloat80) : Prep :=
+  .mid ⟨(normalize (mul fp1 lg)).1.mant, (normalize (mul fp1 lg)).1.exp + F.C.exponentBias⟩
+    (wrap32 (wrap32 ((if e1 > 0 then wrap32 (e1 + 1) else e1) + litErrorHalfscale) *
+      2 ^ ((normalize (mul fp1 lg)).2 % 32)))
+
 def bellPrepare (F : FTy) (P : Powers) (n : Num) : Prep :=
   if n.mantissa = 0 ∨ n.exponent ≤ -litExpCut then .zero
   else if n.exponent ≥ litExpCut then .inf
@@ -145,23 +157,9 @@ def bellPrepare (F : FTy) (P : Powers) (n : Num) : Prep :=
           let shift := clz64 n.mantissa + 1
           wrap32 (shl64m litErrorScale (if shift < litManyShiftCap then shift else litManyShiftCap) % 2 ^ 32)
         else 0
-      let fp : ExtendedFloat80 := { mant := n.mantissa, exp := 0 }
       match getSmallInt P smallIndex.toNat, getSmall P smallIndex.toNat, getLarge P largeIndex.toNat with
       | some si, some sm, some lg =>
-        let prod := fp.mant * si
-        let (fp, errors) :=
-          if prod ≥ 2 ^ 64 then
-            -- overflow: extended-precision multiplication by the small power
-            let fp := (normalize fp).1
-            (mul fp sm, wrap32 (errors + litErrorHalfscale))
-          else ((normalize { fp with mant := prod }).1, errors)
-        -- multiply by the large power
-        let fp := mul fp lg
-        let errors := if errors > 0 then wrap32 (errors + 1) else errors
-        let errors := wrap32 (errors + litErrorHalfscale)
-        let (fp, shift) := normalize fp
-        let errors := wrap32 (errors * 2 ^ (shift % 32))
-        .mid { fp with exp := fp.exp + F.C.exponentBias } errors
+        scaleLarge F (scaleSmall n.mantissa si sm errors).1 (scaleSmall n.mantissa si sm errors).2 lg
       | _, _, _ => .panic
 
 /-- second half of `bellerophon`: underflow cut, the accuracy decision, rounding -/
